@@ -40,6 +40,14 @@ def load_variants():
         for prop in sorted({e['property'] for e in entries}):
             keys = [e['key'] for e in entries if e['property'] == prop]
             res.append({'id': f'revert-{sha}-{prop}', 'prop': prop, 'kind': 'firing', 'patch': path, 'expect': keys})
+    # independently seeded changes that the checks catch (after strengthening): must stay caught
+    import glob
+    for meta in sorted(glob.glob(os.path.join(VERIF, 'seeded', '*', 'meta.json'))):
+        m = json.load(open(meta))
+        sid = os.path.basename(os.path.dirname(meta))
+        for prop, keys in (m.get('caught_after_strengthening') or {}).items():
+            res.append({'id': f'seed-{sid}-{prop}', 'prop': prop, 'kind': 'firing', 'patch': os.path.join(os.path.dirname(meta), 'patch.diff'),
+                        'expect': [k for k in keys[:2]]})
     return res
 
 
